@@ -17,7 +17,8 @@ RULE = ('Generated (start, end, schedule kind, weekday, pre_market) with end tim
         'least one instant and (range start or end falls on a scheduled date, or a weekend month end lies '
         'inside, or the start has a non-midnight time of day), or a rejected weekday.'
         " Round-10 reach: part `session`: the schedule a BacktestTradingSession builds for itself (every kind, with and without a weekday keyword that has no meaning for the kind) against the calendar, each instant an event of the session's own clock; invalid weekdays that are not strings (-1, -3, -5, 5, 7, None, 2.5; any error type counts as a rejection there)."
-        " Round-11 reach: the clock is peeked at before the full pass; the `session` part asks the instants latest first, then earliest first, and re-reads the schedule; a quarter of the random cases run with the process's local zone set to New York / Tokyo.")
+        " Round-11 reach: the clock is peeked at before the full pass; the `session` part asks the instants latest first, then earliest first, and re-reads the schedule; a quarter of the random cases run with the process's local zone set to New York / Tokyo."
+        " Round-13 reach: ranges in 1600 / 2300 / 2400; two simultaneous passes over the clock.")
 ASSUMPTIONS = [
     'UTC-aware pandas Timestamps; end time-of-day not before the start time-of-day (the stated domain)',
     'dates 1990-2040; ranges up to 800 days (random) and every start date 2019-2024 x 0..70 days (sweep)',
@@ -118,6 +119,10 @@ def _run_case(case):
         if pm != qm:
             next(iter(eng), None)              # (somebody looked at the first event only, before the full pass)
         times = set(e.ts for e in eng)
+        if pm == qm and [a_.ts for a_, _ in zip(eng, eng)] != sorted(times):
+            # (two consumers step one clock object side by side: each still sees every event)
+            raise Violation('two simultaneous passes over the clock for %s..%s give one of them %d of its %d events' % (
+                start, end, len([1 for _ in zip(eng, eng)]), len(times)))
         if set(e.ts for e in list(eng)) != times:
             raise Violation('the clock for %s..%s emits different events when iterated a second time' % (start, end))
         for r in got:
@@ -146,6 +151,12 @@ def cases(draw):
     kind = draw(st.sampled_from(['weekly', 'weekly', 'daily', 'end_of_month', 'end_of_month', 'buy_and_hold']))
     dur = gen.short_durations if kind == 'daily' else gen.durations
     start, end = draw(gen.ranges(dur=dur))
+    if kind != 'buy_and_hold' and draw(st.sampled_from([False] * 11 + [True])):
+        # centuries away: schedules and clock are calendar arithmetic, whatever resolution the timestamps use
+        y_ = draw(st.sampled_from([1600, 2300, 2400]))
+        d_ = D.date(y_, draw(st.integers(1, 12)), draw(st.integers(1, 28)))
+        e_ = d_ + D.timedelta(days=draw(st.integers(0, 75)))
+        start, end = [d_.year, d_.month, d_.day] + start[3:], [e_.year, e_.month, e_.day] + end[3:]
     case = {'kind': kind, 'start': start, 'end': end, 'pre': draw(st.booleans()),
             'pre_how': draw(st.sampled_from(['bool', 'bool', 'numpy', 'int'])),
             'local_tz': draw(st.sampled_from([None, None, None, 'America/New_York', 'Asia/Tokyo']))}
